@@ -180,26 +180,43 @@ def nlatent(crit, data):
     return len(data["D"][0])
 
 
-def np_data(crit, data):
+def relayout(a, layout):
+    """the same values in another memory layout: "F" = Fortran order, "strided" = a non-contiguous view (every
+    second element along each of the first two axes of a larger buffer), "neg" = a reversed-stride view"""
+    if layout in (None, "C") or a.ndim == 0:
+        return a
+    if layout == "F":
+        return numpy.asfortranarray(a)
+    if layout == "strided":
+        big = numpy.full(tuple(2 * s + 1 for s in a.shape[:2]) + a.shape[2:], 77, dtype=a.dtype)
+        view = big[1::2, 1::2] if a.ndim >= 2 else big[1::2]
+        view[...] = a
+        return view
+    if layout == "neg":
+        return numpy.ascontiguousarray(a[::-1])[::-1]
+    raise ValueError(layout)
+
+
+def np_data(crit, data, layout=None):
     """canonical case data -> numpy arrays as the constructors want them"""
     out = {}
     for k, v in data.items():
         if k in ("ploidy", "nbest"):
             out[k] = int(v)
         elif k == "familyid":
-            out[k] = numpy.array([int(x) for x in v], dtype="int64")
+            out[k] = relayout(numpy.array([int(x) for x in v], dtype="int64"), layout)
         elif k == "geno":
-            out[k] = _arr(v, "int8")
+            out[k] = relayout(_arr(v, "int8"), layout)
         else:
-            out[k] = _arr(v)
+            out[k] = relayout(_arr(v), layout)
     return out
 
 
-def build(crit, enc, data, n=None, k=None, xmap=None, **std):
+def build(crit, enc, data, n=None, k=None, xmap=None, layout=None, **std):
     """instantiate the concrete class of criterion `crit` for decision encoding `enc`"""
     spec = CRITS[crit]
     cls = getattr(_mod(spec["module"]), spec["classes"][enc])
-    d = np_data(crit, data)
+    d = np_data(crit, data, layout)
     n = ncand(crit, data) if n is None else n
     kw = dict(spec["ctor"](d))
     if enc == "subset":
@@ -219,11 +236,23 @@ def build(crit, enc, data, n=None, k=None, xmap=None, **std):
     return cls(**kw)
 
 
-def decision(enc, v):
-    """canonical decision -> numpy vector of the dtype the encoding uses"""
+def decision(enc, v, form=None):
+    """canonical decision -> numpy vector of the dtype the encoding uses.  `form`: an integer dtype name
+    ("int32", "int8", ...) for the index / count / indicator encodings and / or "strided" (a non-contiguous view)"""
+    form = form or {}
     if enc in ("subset", "integer", "binary"):
-        return numpy.array([int(Fraction(x)) for x in v], dtype="int64")
-    return numpy.array([_f(x) for x in v], dtype=float)
+        vals = [int(Fraction(x)) for x in v]
+        dt = form.get("dtype", "int64")
+        if dt == "int8" and vals and max(vals) > 127:
+            dt = "int64"
+        x = numpy.array(vals, dtype=dt)
+    else:
+        x = numpy.array([_f(x) for x in v], dtype=float)
+    if form.get("strided"):
+        big = numpy.full(2 * len(x) + 1, 3, dtype=x.dtype)
+        big[1::2] = x
+        x = big[1::2]
+    return x
 
 
 def indicator(n, S):
@@ -237,15 +266,41 @@ def scaled(x, a):
 # --------------------------------------------------------------------------------------------
 # random data
 # --------------------------------------------------------------------------------------------
+_STYLE = [None]      # magnitude style of the values drawn by _val: None | "offset" | "tiny" | "huge"
+
+
 def _val(rng, lo=-6, hi=9):
-    return canon.enc(Fraction(rng.randint(lo * 4, hi * 4), rng.choice([1, 1, 2, 4])))
+    v = Fraction(rng.randint(lo * 4, hi * 4), rng.choice([1, 1, 2, 4]))
+    st = _STYLE[0]
+    if st == "offset":          # a large common offset with small differences (25000 + d): exact in binary64
+        v = 25000 + v / 1024
+    elif st == "tiny":          # magnitudes around 1e-8 (dyadic, so still exact)
+        v = v / 2 ** 27
+    elif st == "huge":          # 1e9 +- small
+        v = 2 ** 30 + v / 2
+    return canon.enc(v)
 
 
-def gen_data(rng, crit, n=None):
+def gen_data(rng, crit, n=None, style=None, common=False):
+    """data of one criterion.  `style`: magnitude of the values (see `_val`); `common`: genotype data dominated by
+    one nearly fixed allele (allele counts of a large subset exceed 127)"""
+    _STYLE[0] = style
+    try:
+        return _gen_data(rng, crit, n, common)
+    finally:
+        _STYLE[0] = None
+
+
+def _gen_data(rng, crit, n=None, common=False):
     n = n or rng.choice([2, 3, 3, 4, 4, 5, 6, 7])
     t = rng.choice([1, 2, 2, 3])
     if crit in ("EBV", "GEBV", "WGEBV", "GWGEBV", "RANDOM", "EMBV", "OHV", "UC"):
-        return {"D": [[_val(rng) for _ in range(t)] for _ in range(n)]}
+        D = [[_val(rng) for _ in range(t)] for _ in range(n)]
+        if rng.random() < 0.1:             # a constant trait column next to varying ones
+            j, c = rng.randrange(t), _val(rng)
+            for row in D:
+                row[j] = c
+        return {"D": D}
     if crit in ("OCS", "MGR", "MEH"):
         # upper triangular (the setter demands it), asymmetric, distinct entries
         C = [[(canon.enc(Fraction(rng.randint(1, 12) * rng.choice([1, -1]), rng.choice([1, 2]))) if j >= i else 0)
@@ -261,7 +316,7 @@ def gen_data(rng, crit, n=None):
         # the setter demands square upper-triangular (n x n) slices
         return {"C3": [[[(_val(rng, -4, 4) if j >= i else 0) for j in range(n)] for i in range(n)] for _ in range(t)]}
     if crit == "FAMILY":
-        nf = rng.randint(1, max(1, n - 1))
+        nf = rng.randint(1, min(12, max(1, n - 1)))
         labels = rng.sample(range(1, 40), nf)
         ids = [rng.choice(labels) for _ in range(n)]
         return {"D": [[_val(rng) for _ in range(t)] for _ in range(n)], "familyid": ids}
@@ -272,37 +327,81 @@ def gen_data(rng, crit, n=None):
             d["nbest"] = rng.randint(1, n)
         return d
     if crit in ("PAFD", "PAU", "MOGS"):
-        m = rng.randint(1, 5)
-        geno = [[rng.choice([0, 0, 1, 2, 2]) for _ in range(m)] for _ in range(n)]
-        # force fixed loci now and then (all 0 / all 2): the boundary of the availability tests
+        m = rng.randint(3, 6) if common else rng.randint(1, 5)
+        ploidy = rng.choice([2, 2, 2, 2, 4, 1])
+        if common:
+            # one nearly fixed allele: most individuals carry `ploidy` copies
+            geno = [[(ploidy if rng.random() < 0.9 else rng.randint(0, ploidy)) for _ in range(m)] for _ in range(n)]
+        else:
+            geno = [[rng.choice([0, 0] + list(range(ploidy + 1)) + [ploidy]) for _ in range(m)] for _ in range(n)]
+        # force fixed loci now and then (all 0 / all ploidy): the boundary of the availability tests
         for j in range(m):
             r = rng.random()
             if r < 0.2:
                 for row in geno:
-                    row[j] = 2
-            elif r < 0.4:
+                    row[j] = ploidy
+            elif r < 0.4 and not common:
                 for row in geno:
                     row[j] = 0
-        return {"geno": geno, "ploidy": 2,
+        if common:
+            for row in geno:
+                row[0] = ploidy
+            # nearly fixed loci: everybody carries `ploidy` copies (resp. none) except one or two individuals with one
+            # copy less (more) -- frequencies within 1/(ploidy n) of 1 and 0 without being 1 or 0
+            for j in range(1, m):
+                r = rng.random()
+                if r < 0.35:
+                    for row in geno:
+                        row[j] = ploidy
+                    for i in rng.sample(range(n), rng.choice([1, 1, 2])):
+                        geno[i][j] = ploidy - 1
+                elif r < 0.6:
+                    for row in geno:
+                        row[j] = 0
+                    for i in rng.sample(range(n), rng.choice([1, 1, 2])):
+                        geno[i][j] = 1
+        # targets: exactly 0, 1/4, 1/2, 3/4, 1 and, now and then, targets within 1e-9 of 0 and 1 (interior targets)
+        tf = [F(0), F(1), F(1, 2), F(1, 4), F(3, 4), F(0), F(1), F(1, 2 ** 30), 1 - F(1, 2 ** 30)]
+        return {"geno": geno, "ploidy": ploidy,
                 "mkrwt": [[canon.enc(Fraction(rng.randint(1, 9), rng.choice([1, 2, 4]))) for _ in range(t)]
                           for _ in range(m)],
-                "tfreq": [[canon.enc(rng.choice([F(0), F(1), F(1, 2), F(1, 4), F(3, 4), F(0), F(1)]))
-                           for _ in range(t)] for _ in range(m)]}
+                "tfreq": [[canon.enc(rng.choice(tf)) for _ in range(t)] for _ in range(m)]}
     raise ValueError(crit)
 
 
-def gen_latent_case(rng, crit=None, n=None):
+BIG_N = {"OCS": 40, "MGR": 40, "MEH": 40, "L2": 24}      # kinship criteria: the Spec forms K = C'C (n^3)
+
+
+RECIP_SIZES = [49, 98, 103, 107]        # (1.0/k)*k != 1.0 in binary64
+
+
+def gen_latent_case(rng, crit=None, n=None, big=False, recip=False):
+    """`big`: a population past the 8-bit limits (more than 127 candidates, subsets of more than 63 / 127
+    members, allele counts of the subset above 127, count vectors whose total exceeds 127)"""
     crit = crit or rng.choice(list(CRITS))
-    data = gen_data(rng, crit, n)
+    style = None
+    if big:
+        n = BIG_N.get(crit, rng.choice([130, 140, 150]))
+    elif rng.random() < 0.15:
+        style = rng.choice(["offset", "tiny", "huge"])
+    data = gen_data(rng, crit, n, style=style, common=big)
     n = ncand(crit, data)
     k = rng.randint(1, n)
+    if big:
+        k = rng.randint(min(n, 129), n) if n > 129 else rng.randint(n // 2, n)
+        if recip and n > 107:
+            k = rng.choice(RECIP_SIZES)         # subset sizes whose float reciprocal is inexact
+        if crit == "GB":
+            data["nbest"] = rng.randint(1, k)
     if crit == "GB":
         k = rng.randint(int(data["nbest"]), n)       # nbestfndr founders are taken out of the k selected
     S = rng.sample(range(n), k)
     perm = list(S)
     rng.shuffle(perm)
-    case = {"kind": "latent", "crit": crit, "data": data, "S": S, "perm": perm,
-            "a": canon.enc(rng.choice([F(2), F(3), F(1, 2), F(5, 4), F(7), F(1, 8)]))}
+    # rescaling factors: moderate ones and (dyadic) extreme ones that bring the total of a vector near 1e-6 .. 1e-9
+    # (still >= 1e-10, the classes' own guard) or to 1e6
+    a = rng.choice([F(2), F(3), F(1, 2), F(5, 4), F(7), F(1, 8), F(1, 2 ** 20), F(1, 2 ** 27), F(1, 2 ** 29), F(2 ** 20)])
+    case = {"kind": "latent", "crit": crit, "data": data, "S": S, "perm": perm, "a": canon.enc(a)}
     if len(CRITS[crit]["classes"]) > 1:
         x = [rng.choice([0, 0, 1, 2, 3, 5]) for _ in range(n)]
         if not any(x):
@@ -312,6 +411,21 @@ def gen_latent_case(rng, crit=None, n=None):
             case["xr"] = [canon.enc(Fraction(rng.randint(0, 16), 16)) for _ in range(n)]
             if not any(Fraction(v) for v in case["xr"]):
                 case["xr"][rng.randrange(n)] = canon.enc(F(3, 8))
+    if rng.random() < 0.4:
+        case["near1"] = True
+    # rarely used argument forms: memory layout of the data arrays, dtype / contiguity of the decision vector
+    r = rng.random()
+    if r < 0.25:
+        case["layout"] = rng.choice(["F", "strided", "neg"])
+    r = rng.random()
+    if big:
+        case["xform"] = {"dtype": "int8"}          # 8-bit index / count / indicator vectors (totals above 127)
+    elif r < 0.3:
+        case["xform"] = {"dtype": rng.choice(["int32", "int8", "int16", "intp"])}
+        if rng.random() < 0.5:
+            case["xform"]["strided"] = True
+    elif r < 0.4:
+        case["xform"] = {"strided": True}
     return case
 
 
@@ -333,6 +447,8 @@ def gen_trans(rng, nl, role):
     if t == "empty":
         return {"t": "empty"}, 0
     if t == "decn_sum_eq":
+        if rng.random() < 0.25:          # the documented default target: decnvec_sum = 1.0, no keyword argument given
+            return {"t": "decn_sum_eq", "target": 1, "default_kw": True}, 1
         return {"t": "decn_sum_eq", "target": canon.enc(Fraction(rng.randint(0, 8), 2))}, 1
     if t == "slice":         # user callable returning a *view* of the latent vector: latent[0:1]
         return {"t": "slice"}, 1
@@ -372,15 +488,99 @@ def gen_eval_case(rng):
                 x[rng.randrange(n)] = 1
             X.append(x)
     case = {"kind": "evalfn", "crit": crit, "enc": enc, "data": data, "X": X}
+
+    def weights(ln):
+        # distinct weights per role, mixed signs, never 0 or 1 so that a swapped weight vector shows
+        return [canon.enc(rng.choice([Fraction(-1), Fraction(-1, 2), Fraction(-1), Fraction(-1, 2)])
+                          if rng.random() < 0.35 else
+                          Fraction(rng.choice([-3, -2, 2, 3, 5, -5, 7]), rng.choice([1, 2])))
+                for _ in range(ln)]
+    forms = {}
     for role in ("obj", "ineqcv", "eqcv"):
         tr, ln = gen_trans(rng, nl, role)
+        r = rng.random()
+        if r < 0.06:
+            # transformation left at its default (None): identity for the objectives, empty for the constraints
+            tr, ln = {"t": "default"}, (nl if role == "obj" else 0)
         case[role + "_trans"] = tr
-        # distinct weights per role, mixed signs, never 0 or 1 so that a swapped weight vector shows
-        case[role + "_wt"] = [canon.enc(rng.choice([Fraction(-1), Fraction(-1, 2), Fraction(-1), Fraction(-1, 2)])
-                                        if rng.random() < 0.35 else
-                                        Fraction(rng.choice([-3, -2, 2, 3, 5, -5, 7]), rng.choice([1, 2])))
-                              for _ in range(ln)]
+        case[role + "_wt"] = weights(ln)
+        # rarely used argument forms of the weights: one Real for all entries, or None (= 1.0 everywhere)
+        r = rng.random()
+        if r < 0.12 and ln > 0:
+            forms[role] = "scalar"
+            case[role + "_wt"] = [case[role + "_wt"][0]] * ln
+        elif r < 0.2:
+            forms[role] = "none"
+            case[role + "_wt"] = [1] * ln
+    if forms:
+        case["wt_form"] = forms
+    if rng.random() < 0.3:
+        # history on one object: weights (and transformation keyword arguments) re-assigned after the first
+        # evaluations; the next evaluation must use the new ones
+        sec = {}
+        for role in ("obj", "ineqcv", "eqcv"):
+            sec[role + "_wt"] = weights(len(case[role + "_wt"]))
+            tr = dict(case[role + "_trans"])
+            if tr["t"] == "dot":
+                tr["w"] = [canon.enc(Fraction(rng.randint(-6, 6), 2)) for _ in range(nl)]
+            elif tr["t"] == "penalty":
+                tr["thr"] = canon.enc(Fraction(rng.randint(-8, 8), 2))
+            elif tr["t"] == "decn_sum_eq" and not tr.get("default_kw"):
+                tr["target"] = canon.enc(Fraction(rng.randint(0, 8), 2))
+            elif tr["t"] == "affine":
+                tr["m"], tr["c"] = canon.enc(Fraction(rng.randint(1, 5))), canon.enc(Fraction(rng.randint(-3, 3)))
+            sec[role + "_trans"] = tr
+        case["second"] = sec
+    if rng.random() < 0.2:
+        case["layout"] = rng.choice(["F", "strided", "neg"])
+    if rng.random() < 0.2:
+        case["xform"] = {"strided": True}
     return case
+
+
+INPLACE_UNSAFE = ("tfreq", "familyid", "ploidy", "nbest")    # derived masks / indices are computed by the setters
+
+
+def gen_reassign_case(rng, crit=None):
+    """history on ONE problem object: query latentfn, replace the data (by assigning the documented properties
+    or by editing the held arrays in place), query again.  The second answer must be the definition on the new data."""
+    crit = crit or rng.choice(list(CRITS))
+    enc = rng.choice(list(CRITS[crit]["classes"]))
+    n = rng.choice([3, 4, 5, 6])
+    st = rng.getstate()
+    data = gen_data(rng, crit, n)
+    data2 = gen_data(rng, crit, n)
+    # same shapes are needed for the in-place variant: redraw the second data set from the same generator state
+    # until the shapes agree (number of traits / markers / blocks are drawn inside gen_data)
+    for _ in range(200):
+        if _shape(data2) == _shape(data) and nlatent(crit, data2) == nlatent(crit, data):
+            break
+        data2 = gen_data(rng, crit, n)
+    else:
+        rng.setstate(st)
+        data = gen_data(rng, crit, n)
+        data2 = data
+    k = rng.randint(1, n)
+    if crit == "GB":
+        k = rng.randint(max(int(data["nbest"]), int(data2["nbest"])), n)
+    if enc == "subset":
+        decn = rng.sample(range(n), k)
+    elif enc == "real":
+        decn = [canon.enc(Fraction(rng.randint(0, 8), 8)) for _ in range(n)]
+        if not any(Fraction(v) for v in decn):
+            decn[rng.randrange(n)] = canon.enc(F(1, 2))
+    else:
+        decn = [rng.choice([0, 1]) if enc == "binary" else rng.choice([0, 1, 2, 3]) for _ in range(n)]
+        if not any(decn):
+            decn[rng.randrange(n)] = 1
+    return {"kind": "reassign", "crit": crit, "enc": enc, "data": data, "data2": data2, "decn": decn,
+            "mode": rng.choice(["assign", "assign", "inplace"]), "prime": rng.choice(["latentfn", "evalfn", "evaluate"])}
+
+
+def _shape(d):
+    def sh(v):
+        return (len(v),) + sh(v[0]) if isinstance(v, list) and v else ()
+    return {k: sh(v) for k, v in d.items()}
 
 
 def gen_lookahead_case(rng):
@@ -409,6 +609,8 @@ def make_trans(desc, log):
     import pybrops.breed.prot.sel.prob.trans as T
     t = desc["t"]
     kwargs = {}
+    if t == "default":
+        return None, None
     if t == "identity":
         fn = T.trans_identity
     elif t == "sum":
@@ -420,7 +622,7 @@ def make_trans(desc, log):
         fn = T.trans_empty
     elif t == "decn_sum_eq":
         fn = T.trans_decnvec_sum_eq
-        kwargs = {"decnvec_sum": _f(desc["target"])}
+        kwargs = {} if desc.get("default_kw") else {"decnvec_sum": _f(desc["target"])}
     elif t == "slice":
         def fn(decnvec, latentvec, **kw):
             return latentvec[0:1]
@@ -445,13 +647,15 @@ def make_trans(desc, log):
     return spy, kwargs
 
 
-def ref_trans(desc, x, latent):
+def ref_trans(desc, x, latent, role="obj"):
     """exact reference value of a transformation (Fractions)"""
     t = desc["t"]
     x = [Fraction(v) for v in x]
     l = [Fraction(v) for v in latent]
-    if t == "identity":
+    if t == "identity" or (t == "default" and role == "obj"):
         return l
+    if t == "default":
+        return []
     if t == "sum":
         return [sum(l, Fraction(0))]
     if t == "dot":
@@ -489,18 +693,33 @@ class C05(Prop):
             "through the subset class (two listings), the integer, binary and real classes (two scalings), plus a "
             "general count vector / real vector and its rescaling; evalfn cases with spy transformations (built-in "
             "and user callables with keyword arguments), distinct weights per role and the batch path evaluate(X); "
-            "factory cases build the problem from population objects (usefulness criterion with two-way and three-way designs, the latter also through the real three-way variance factory; kinship factors checked against the K of the C13 model).  Non-trivial = at least two candidates, a "
+            "factory cases build the problem from population objects (usefulness criterion with two-way and three-way designs, the latter also through the real three-way variance factory; kinship factors checked against the K of the C13 model).  "
+            "Round 3 case classes: (sizes) per criterion two populations of 130-150 candidates with subsets of 49/98/103/107 and of more than 128 members, one nearly fixed allele (allele counts of the subset above 127, loci one copy away from fixation), 8-bit decision vectors whose total exceeds 127; "
+            "cross maps of 1035 / 1081 rows (past the 1024-row chunk of _calc_ohvmat) and _calc_ohvmat called with mem = 1, 2, 3, ..., None; "
+            "(magnitudes) data with a common offset 25000 + d/4096, around 1e-8 and around 1e9, rescalings down to totals of 2e-9, totals 1 +- 6e-8, target / favourable-allele frequencies 2^-30; "
+            "(histories on one object) every result re-read after later calls, a second query after the caller overwrote the returned array, another subset on the same object, data re-assigned or edited in place between two queries, weights and keyword arguments re-assigned between two evaluations, "
+            "two factory calls on the same population objects with reorder_taxa / sort_taxa / group_taxa / mat / u_a assigned in between; "
+            "(argument forms) Fortran-ordered, strided and reverse-strided data arrays, int8/int16/int32 and non-contiguous decision vectors, scalar / None weights, default transformations and default target, ploidy 1 and 4, four-phase genotype matrices, 1-3 parents per cross with and without selfs, "
+            "per-taxon nrep / nprogeny arrays with unequal entries, label-free breeding value matrices, one-marker chromosomes; fully and partly inbred lines through the real doubled-haploid simulation (EMBV = GEBV, resp. within the range of the line's doubled haploids).  "
+            "Non-trivial = at least two candidates, a "
             "proper subset or a non-uniform vector, and a latent vector that is not all zero" % NCLASSES)
     TRUSTED = ["numpy.linalg.norm(.., ord=2) = sqrt of the sum of squares; numpy.power; numpy.linalg.cholesky and "
                "apply_jitter entered through the contract C^T C = K, where K is computed by the C13 model "
                "(Model/Coancestry.lean, op c05.kinship) from the genotype counts; the diagonal may exceed it by the jitter <= 0.5e-6",
                "genetic variance factories (C12), haplotype binning (C18), mating simulation (C01) are stubbed / taken as given "
                "in the factory cases: the factory code around them is what is checked here",
-               "pymoo's Problem.evaluate plumbing (only its call of _evaluate is exercised)"]
+               "pymoo's Problem.evaluate plumbing (only its call of _evaluate is exercised)",
+               "EMBV matrix factory: the doubled-haploid simulation (dense_dh, C01) and the prediction are scripted in the "
+               "model-compared cases (the real DenseBreedingValueMatrix.tmax is run on the scripted values); the real simulation "
+               "is run on fully / partly inbred lines, where the result is determined resp. bounded without knowing the draws"]
     ASSUMPTIONS = ["a contribution vector has |sum x| >= 1e-10 (inside the guard the classes deliberately leave x "
                    "unnormalised: theorem scale_guard_counterexample); zero-sum vectors are only compared with the model",
                    "subset decisions are duplicate-free index lists (the declared decision space of SubsetProblem)",
-                   "inputs are integers / dyadic rationals so that float arithmetic is exact up to 1e-9"]
+                   "inputs are integers / dyadic rationals so that float arithmetic is exact up to 1e-9",
+                   "a problem object reads the arrays it was given: data assigned through the documented properties, or edited "
+                   "in place (except tfreq / familyid, whose derived masks / indices the setters compute), must be reflected by "
+                   "the next latentfn call; population objects mutated in place between two factory calls must be reflected by "
+                   "the second problem"]
 
     # ------------------------------------------------------------------ cases
     def corpus(self):
@@ -564,9 +783,11 @@ class C05(Prop):
                 else:
                     out.append(c05_factories.gen_case(rng))
                 nfac += 1
-            elif r < 0.70:
+            elif r < 0.66:
                 # cycle through the table so that every class is met in every run
                 out.append(gen_latent_case(rng, crits[i % len(crits)] if i < 3 * len(crits) else None))
+            elif r < 0.70:
+                out.append(gen_reassign_case(rng))
             elif r < 0.97:
                 out.append(gen_eval_case(rng))
             else:
@@ -578,6 +799,11 @@ class C05(Prop):
                 if enc == "real" and rng.random() < 0.6:
                     x[rng.randrange(nn)] = canon.enc(Fraction(rng.randint(1, 9), 10 ** rng.choice([11, 12, 15])))
                 out.append({"kind": "guard", "crit": crit, "data": data, "enc": enc, "x": x})
+        # sizes past the 8-bit limits: one population of 130-150 candidates per criterion and run
+        # (subsets of more than 127 members, allele counts above 127, count vectors with a total above 127)
+        nbig = 2 * len(crits) if tier == "quick" else 8 * len(crits)
+        for i in range(nbig):
+            out.append(gen_latent_case(rng, crits[i % len(crits)], big=True, recip=(i // len(crits)) % 2 == 1))
         return out
 
     def exhaustive(self, tier):
@@ -606,6 +832,9 @@ class C05(Prop):
         S = case["S"]
         k = len(S)
         ev = [("subset", "subset", S, "set"), ("subset_perm", "subset", case["perm"], "set")]
+        if n > k or k > 1:
+            # another subset of the same size on the same problem object (a shared work buffer would show)
+            ev.append(("subset_other", "subset", self._other(case), "oset"))
         if len(CRITS[crit]["classes"]) > 1:
             ind = indicator(n, S)
             unit = [canon.enc(Fraction(v, k)) for v in ind]
@@ -614,10 +843,26 @@ class C05(Prop):
             if "x" in case:
                 ev += [("v_integer", "integer", case["x"], "vec"), ("v_real", "real", case["x"], "vec"),
                        ("v_real_scaled", "real", scaled(case["x"], case["a"]), "vec")]
+            if case.get("near1"):
+                # real vectors whose total is 1 +- 6e-8: "already normalised" to a tolerance, not exactly
+                e = Fraction(1, 2 ** 24)
+                ev.append(("real_near1", "real", scaled(ind, (1 - e) / k), "set"))
+                if "x" in case:
+                    tot = sum(Fraction(v) for v in case["x"])
+                    ev.append(("v_real_near1", "real", scaled(case["x"], (1 + e) / tot), "vec"))
             if "xr" in case:
                 ev += [("r_real", "real", case["xr"], "rvec"),
                        ("r_real_scaled", "real", scaled(case["xr"], case["a"]), "rvec")]
         return ev
+
+    @staticmethod
+    def _other(case):
+        n = ncand(case["crit"], case["data"])
+        S = case["S"]
+        if len(S) < n:
+            free = [i for i in range(n) if i not in S]
+            return S[:-1] + [free[0]]
+        return S[1:] + S[:1]
 
     def run_impl(self, case):
         kind = case["kind"]
@@ -625,16 +870,35 @@ class C05(Prop):
             crit, data = case["crit"], case["data"]
             probs = {}
             obs = {}
+            raw = []
             for tag, enc, dv, _ in self._latent_evals(case):
                 key = (enc, len(dv) if enc == "subset" else 0)
                 if key not in probs:
-                    probs[key] = build(crit, enc, data, k=len(dv))
-                x = decision(enc, dv)
+                    probs[key] = build(crit, enc, data, k=len(dv), layout=case.get("layout"))
+                x = decision(enc, dv, case.get("xform"))
                 x0 = x.copy()
-                obs[tag] = canon.enc(numpy.asarray(probs[key].latentfn(x), dtype=float))
+                out = probs[key].latentfn(x)
+                raw.append((tag, out, probs[key], x))
+                obs[tag] = canon.enc(numpy.asarray(out, dtype=float))
                 if not (x0 == x).all():
                     obs["__mutated__"] = tag
+            # history on one object: results handed out earlier must not change when the problem is queried again
+            # (no shared work buffer), and a repeated query after the caller scribbled on the returned array must give
+            # the same value (no cached array handed out by reference)
+            for tag, out, _, _ in raw:
+                if canon.enc(numpy.asarray(out, dtype=float)) != obs[tag]:
+                    obs["__aliased__"] = tag
+                    break
+            tag, out, prob, x = raw[0]
+            try:
+                if isinstance(out, numpy.ndarray) and out.size:
+                    out[...] = 12345.0
+            except ValueError:
+                pass
+            obs["__again__"] = canon.enc(numpy.asarray(prob.latentfn(x), dtype=float))
             return obs
+        if kind == "reassign":
+            return self._run_reassign(case)
         if kind == "guard":
             p = build(case["crit"], case["enc"], case["data"])
             return {"latent": canon.enc(numpy.asarray(p.latentfn(decision(case["enc"], case["x"])), dtype=float))}
@@ -648,6 +912,40 @@ class C05(Prop):
             from . import c05_factories
             return c05_factories.run(case)
         raise ValueError(kind)
+
+    def _run_reassign(self, case):
+        crit, enc = case["crit"], case["enc"]
+        spec = CRITS[crit]
+        decn = case["decn"]
+        p = build(crit, enc, case["data"], k=len(decn))
+        x = decision(enc, decn)
+
+        def query():
+            lat = canon.enc(numpy.asarray(p.latentfn(x), dtype=float))
+            o, _, _ = p.evalfn(x)
+            res = p.evaluate(x, return_as_dictionary=True)
+            return {"latent": lat, "obj": canon.enc(numpy.asarray(o, dtype=float)),
+                    "F": canon.enc(numpy.asarray(res["F"], dtype=float))}
+        # prime whatever the object may remember
+        if case["prime"] == "latentfn":
+            p.latentfn(x)
+        elif case["prime"] == "evalfn":
+            p.evalfn(x)
+        else:
+            p.evaluate(x, return_as_dictionary=True)
+        obs = {"first": query()}
+        d2 = np_data(crit, case["data2"])
+        names = spec["ctor"]({k: k for k in case["data2"]})           # constructor keyword -> data key
+        for name, key in names.items():
+            val = d2[key]
+            prop = name if isinstance(getattr(type(p), name, None), property) else spec.get("attr", name)
+            if case["mode"] == "inplace" and isinstance(val, numpy.ndarray) and key not in INPLACE_UNSAFE:
+                held = getattr(p, prop)
+                held[...] = val
+            else:
+                setattr(p, prop, val)
+        obs["second"] = query()
+        return obs
 
     def _run_unimplemented(self, case):
         """MultiObjectiveGenomicSubsetMatingProblem: `latentfn` raises unconditionally ("STILL UNDER CONSTRUCTION",
@@ -711,33 +1009,52 @@ class C05(Prop):
         crit, enc, data = case["crit"], case["enc"], case["data"]
         logs = {r: [] for r in ("obj", "ineqcv", "eqcv")}
         std = {}
+        forms = case.get("wt_form", {})
         for r in ("obj", "ineqcv", "eqcv"):
             fn, kw = make_trans(case[r + "_trans"], logs[r])
             std[r + "_trans"] = fn
             std[r + "_trans_kwargs"] = kw
-            std[r + "_wt"] = numpy.array([_f(v) for v in case[r + "_wt"]], dtype=float)
+            if forms.get(r) == "scalar":
+                std[r + "_wt"] = _f(case[r + "_wt"][0])
+            elif forms.get(r) == "none":
+                std[r + "_wt"] = None
+            else:
+                std[r + "_wt"] = numpy.array([_f(v) for v in case[r + "_wt"]], dtype=float)
         std["nobj"] = len(case["obj_wt"])
         std["nineqcv"] = len(case["ineqcv_wt"])
         std["neqcv"] = len(case["eqcv_wt"])
         X = case["X"]
-        p = build(crit, enc, data, k=len(X[0]), **std)
-        rows = []
-        for xv in X:
-            x = decision(enc, xv)
+        p = build(crit, enc, data, k=len(X[0]), layout=case.get("layout"), **std)
+
+        def one(xv):
+            x = decision(enc, xv, case.get("xform"))
             lat = numpy.asarray(p.latentfn(x), dtype=float)
             for r in logs:
                 logs[r].clear()
             o, g, h = p.evalfn(x)
-            rows.append({"latent": canon.enc(lat), "obj": canon.enc(numpy.asarray(o, dtype=float)),
-                         "ineqcv": canon.enc(numpy.asarray(g, dtype=float)),
-                         "eqcv": canon.enc(numpy.asarray(h, dtype=float)),
-                         "calls": {r: list(logs[r]) for r in logs}})
+            return {"latent": canon.enc(lat), "obj": canon.enc(numpy.asarray(o, dtype=float)),
+                    "ineqcv": canon.enc(numpy.asarray(g, dtype=float)),
+                    "eqcv": canon.enc(numpy.asarray(h, dtype=float)),
+                    "calls": {r: list(logs[r]) for r in logs}}
+        rows = [one(xv) for xv in X]
         Xa = numpy.stack([decision(enc, xv) for xv in X])
         res = p.evaluate(Xa, return_as_dictionary=True)
         batch = {k2: canon.enc(numpy.asarray(res[k2], dtype=float)) for k2 in ("F", "G", "H") if res.get(k2) is not None}
         res1 = p.evaluate(decision(enc, X[0]), return_as_dictionary=True)      # a single decision vector
         single = {k2: canon.enc(numpy.asarray(res1[k2], dtype=float)) for k2 in ("F", "G", "H") if res1.get(k2) is not None}
-        return {"rows": rows, "batch": batch, "single": single}
+        obs = {"rows": rows, "batch": batch, "single": single}
+        if "second" in case:
+            sec = case["second"]
+            for r in ("obj", "ineqcv", "eqcv"):
+                setattr(p, r + "_wt", numpy.array([_f(v) for v in sec[r + "_wt"]], dtype=float))
+                if sec[r + "_trans"]["t"] != "default":
+                    _, kw = make_trans(sec[r + "_trans"], [])
+                    setattr(p, r + "_trans_kwargs", kw)
+            obs["second"] = one(X[0])
+            res2 = p.evaluate(decision(enc, X[0]), return_as_dictionary=True)
+            obs["second_single"] = {k2: canon.enc(numpy.asarray(res2[k2], dtype=float)) for k2 in ("F", "G", "H")
+                                    if res2.get(k2) is not None}
+        return obs
 
     # ------------------------------------------------------------------ model requests
     def requests(self, case, obs):
@@ -754,6 +1071,9 @@ class C05(Prop):
                 if grp == "set":
                     k = len(case["S"])
                     sh = [canon.enc(Fraction(v, k)) for v in indicator(n, case["S"])]
+                elif grp == "oset":
+                    k = len(case["S"])
+                    sh = [canon.enc(Fraction(v, k)) for v in indicator(n, self._other(case))]
                 else:
                     x = [Fraction(v) for v in case["x" if grp == "vec" else "xr"]]
                     tot = sum(x)
@@ -761,6 +1081,22 @@ class C05(Prop):
                 supp = [i for i, v in enumerate(sh) if Fraction(v) > 0]
                 reqs.append(dict(crit, op="c05.spec_latent", shares=sh, supp=supp,
                                  reported=[obs[t] for t in tags if _finite(obs[t])]))
+            return reqs
+        if kind == "reassign":
+            reqs = []
+            n = ncand(case["crit"], case["data"])
+            enc, decn = case["enc"], case["decn"]
+            if enc == "subset":
+                sh = [canon.enc(Fraction(decn.count(i), len(decn))) for i in range(n)]
+            else:
+                tot = sum(Fraction(v) for v in decn)
+                sh = [canon.enc(Fraction(v) / tot) for v in decn]
+            supp = [i for i, v in enumerate(sh) if Fraction(v) > 0]
+            for key, which in (("data", "first"), ("data2", "second")):
+                crit = CRITS[case["crit"]]["crit"](case[key])
+                reqs.append(dict(crit, op="c05.latent", **({"S": decn} if enc == "subset" else {"x": decn})))
+                lat = obs[which]["latent"]
+                reqs.append(dict(crit, op="c05.spec_latent", shares=sh, supp=supp, reported=[lat] if _finite(lat) else []))
             return reqs
         if kind == "guard":
             crit = CRITS[case["crit"]]["crit"](case["data"])
@@ -783,13 +1119,13 @@ class C05(Prop):
             return reqs
         if kind == "evalfn":
             reqs = []
-            if all(case[r + "_trans"]["t"] in TRANS_BUILTIN for r in ("obj", "ineqcv", "eqcv")):
+            if all(self._eff_trans(case, r)["t"] in TRANS_BUILTIN for r in ("obj", "ineqcv", "eqcv")):
                 for xv, row in zip(case["X"], obs["rows"]):
                     if not _finite(row["latent"]):
                         continue
                     reqs.append({"op": "c05.evalfn", "x": xv, "latent": row["latent"],
                                  **{r + "_wt": case[r + "_wt"] for r in ("obj", "ineqcv", "eqcv")},
-                                 **{r + "_trans": case[r + "_trans"] for r in ("obj", "ineqcv", "eqcv")}})
+                                 **{r + "_trans": self._eff_trans(case, r) for r in ("obj", "ineqcv", "eqcv")}})
             return reqs
         if kind == "factory":
             from . import c05_factories
@@ -801,6 +1137,29 @@ class C05(Prop):
         kind = case["kind"]
         if kind == "latent":
             return self._judge_latent(case, obs, answers)
+        if kind == "reassign":
+            bad_corr, bad_spec = [], []
+            for i, which in enumerate(("first", "second")):
+                m, sp = answers[2 * i], answers[2 * i + 1]
+                for a in (m, sp):
+                    if "err" in a:
+                        raise RuntimeError("driver error: " + a["err"])
+                o = obs[which]
+                what = "" if which == "first" else f"after the data were re-assigned ({case['mode']}): "
+                if not _finite(o["latent"]):
+                    bad_spec.append(f"{what}non-finite latent {o['latent']}")
+                    continue
+                if not _close_vec(m["ok"], o["latent"]):
+                    bad_corr.append(f"{what}model={m['ok']} impl={o['latent']}")
+                if sp["ok"]["bad"]:
+                    bad_spec.append(f"{what}latent {o['latent']} is not the definition {sp['ok']['definition']} on the data "
+                                    f"the problem now holds")
+                # default weights (1) and transformation (identity): objectives = latent vector
+                if not _close_vec(o["obj"], o["latent"], 1e-12, 1e-15) or not _close_vec(o["F"], o["latent"], 1e-12, 1e-15):
+                    bad_spec.append(f"{what}evalfn {o['obj']} / evaluate {o['F']} differ from latentfn {o['latent']}")
+            return {"corr": not bad_corr, "spec": not bad_spec, "nontrivial": case["data"] != case["data2"],
+                    "detail": f"reassign[{case['crit']}/{case['enc']}/{case['mode']}] " +
+                              ("; ".join(bad_spec + bad_corr)[:1500] if (bad_spec or bad_corr) else "ok")}
         if kind == "guard":
             a = answers[0]
             if "err" in a:
@@ -874,6 +1233,10 @@ class C05(Prop):
         bad_corr, bad_spec = [], []
         if "__mutated__" in obs:
             bad_spec.append("decision vector modified in place by " + obs["__mutated__"])
+        if "__aliased__" in obs:
+            bad_spec.append("the latent vector returned for " + obs["__aliased__"] + " was changed by a later call")
+        if "__again__" in obs and obs["__again__"] != obs[evs[0][0]]:
+            bad_spec.append(f"latentfn called twice on the same decision gives {obs[evs[0][0]]} and then {obs['__again__']}")
         for (tag, enc, dv, grp), a in zip(evs, answers):
             if "err" in a:
                 raise RuntimeError(f"driver error on {tag}: {a['err']}")
@@ -897,10 +1260,49 @@ class C05(Prop):
                 "detail": f"latent[{case['crit']}] " + "; ".join(bad_spec + bad_corr)[:1500] if (bad_corr or bad_spec)
                 else f"latent[{case['crit']}] {len(evs)} evaluations agree with model and definition"}
 
+    @staticmethod
+    def _eff_trans(case, r):
+        d = case[r + "_trans"]
+        if d["t"] == "default":
+            return {"t": "identity"} if r == "obj" else {"t": "empty"}
+        return d
+
+    def _check_row(self, case, xv, row, bad_spec, what=""):
+        """Spec of one evalfn call: exactly weight * declared transformation of (x, latentfn(x)), the declared
+        keyword arguments handed over, every transformation called once with the decision and latent vectors"""
+        lat = row["latent"]
+        # float evaluation of a sum / dot product of the latent entries is exact up to ~1e-16 of the largest summand
+        # (cancellation can leave an absolute error of that size in a result that is exactly 0)
+        mag = max([1.0] + [abs(float(Fraction(v))) for v in lat] + [abs(float(Fraction(v))) for v in xv])
+        for r in ("obj", "ineqcv", "eqcv"):
+            want_t = ref_trans(case[r + "_trans"], xv, lat, r)
+            want = [canon.enc(Fraction(w) * v) for w, v in zip(case[r + "_wt"], want_t)]
+            wmag = max([1.0] + [abs(float(Fraction(v))) for v in case[r + "_wt"]] +
+                       [abs(float(Fraction(v))) for v in case[r + "_trans"].get("w", [])])
+            if len(want) != len(case[r + "_wt"]) or not _close_vec(want, row[r], 1e-12, 1e-14 * mag * wmag * wmag):
+                bad_spec.append(f"{what}{r}: reported {row[r]} but weight*transformation(latent) = {want}")
+            if case[r + "_trans"]["t"] == "default":
+                continue
+            calls = row["calls"][r]
+            if len(calls) != 1:
+                bad_spec.append(f"{what}{r}: transformation called {len(calls)} times")
+            else:
+                c = calls[0]
+                if not _close_vec(c["x"], [canon.enc(Fraction(v)) for v in xv], 0, 0):
+                    bad_spec.append(f"{what}{r}: transformation received decision vector {c['x']}, not {xv}")
+                if not _close_vec(c["latent"], lat, 0, 0):
+                    bad_spec.append(f"{what}{r}: transformation received latent {c['latent']}, latentfn gives {lat}")
+                want_kw = {"dot": ["latentvec_wt"], "decn_sum_eq": ["decnvec_sum"], "penalty": ["thr"],
+                           "affine": ["c", "m"]}.get(case[r + "_trans"]["t"], [])
+                if case[r + "_trans"].get("default_kw"):
+                    want_kw = []
+                if c["kwargs"] != want_kw:
+                    bad_spec.append(f"{what}{r}: transformation received keyword arguments {c['kwargs']}, declared {want_kw}")
+
     def _judge_evalfn(self, case, obs, answers):
         bad_corr, bad_spec = [], []
         ai = 0
-        builtin = all(case[r + "_trans"]["t"] in TRANS_BUILTIN for r in ("obj", "ineqcv", "eqcv"))
+        builtin = all(self._eff_trans(case, r)["t"] in TRANS_BUILTIN for r in ("obj", "ineqcv", "eqcv"))
         for xv, row in zip(case["X"], obs["rows"]):
             lat = row["latent"]
             if not _finite(lat):
@@ -911,28 +1313,13 @@ class C05(Prop):
                 ai += 1
                 if "err" in a:
                     raise RuntimeError("driver error: " + a["err"])
+                mag = max([1.0] + [abs(float(Fraction(v))) for v in lat] + [abs(float(Fraction(v))) for v in xv])
                 for r in ("obj", "ineqcv", "eqcv"):
-                    if not _close_vec(a["ok"][r], row[r], 1e-12, 1e-15):
+                    wmag = max([1.0] + [abs(float(Fraction(v))) for v in case[r + "_wt"]] +
+                               [abs(float(Fraction(v))) for v in case[r + "_trans"].get("w", [])])
+                    if not _close_vec(a["ok"][r], row[r], 1e-12, 1e-14 * mag * wmag * wmag):
                         bad_corr.append(f"{r}: model={a['ok'][r]} impl={row[r]}")
-            for r in ("obj", "ineqcv", "eqcv"):
-                # Spec: exactly weight * declared transformation of (x, latentfn(x)), declared kwargs handed over
-                want_t = ref_trans(case[r + "_trans"], xv, lat)
-                want = [canon.enc(Fraction(w) * v) for w, v in zip(case[r + "_wt"], want_t)]
-                if len(want) != len(case[r + "_wt"]) or not _close_vec(want, row[r], 1e-12, 1e-15):
-                    bad_spec.append(f"{r}: reported {row[r]} but weight*transformation(latent) = {want}")
-                calls = row["calls"][r]
-                if len(calls) != 1:
-                    bad_spec.append(f"{r}: transformation called {len(calls)} times")
-                else:
-                    c = calls[0]
-                    if not _close_vec(c["x"], [canon.enc(Fraction(v)) for v in xv], 0, 0):
-                        bad_spec.append(f"{r}: transformation received decision vector {c['x']}, not {xv}")
-                    if not _close_vec(c["latent"], lat, 0, 0):
-                        bad_spec.append(f"{r}: transformation received latent {c['latent']}, latentfn gives {lat}")
-                    want_kw = {"dot": ["latentvec_wt"], "decn_sum_eq": ["decnvec_sum"], "penalty": ["thr"],
-                               "affine": ["c", "m"]}.get(case[r + "_trans"]["t"], [])
-                    if c["kwargs"] != want_kw:
-                        bad_spec.append(f"{r}: transformation received keyword arguments {c['kwargs']}, declared {want_kw}")
+            self._check_row(case, xv, row, bad_spec)
         # batch path
         names = {"F": "obj", "G": "ineqcv", "H": "eqcv"}
         for key, r in names.items():
@@ -945,6 +1332,20 @@ class C05(Prop):
             got1 = obs.get("single", {}).get(key)
             if got1 is None or not _close_vec(got1, want[0], 1e-12, 1e-15):
                 bad_spec.append(f"evaluate(x)[{key}] = {got1} but evalfn gives {want[0]}")
+        # weights / keyword arguments re-assigned on the same object: the next evaluation uses the new ones, and the
+        # latent vector (the data did not change) is the same
+        if "second" in case and "second" in obs:
+            row2 = obs["second"]
+            if row2["latent"] != obs["rows"][0]["latent"]:
+                bad_spec.append(f"latent vector changed from {obs['rows'][0]['latent']} to {row2['latent']} after re-assigning weights")
+            elif _finite(row2["latent"]):
+                self._check_row(dict(case, **case["second"]), case["X"][0], row2, bad_spec, "after re-assignment: ")
+                for key, r in names.items():
+                    if len(case[r + "_wt"]) == 0:
+                        continue
+                    got2 = obs.get("second_single", {}).get(key)
+                    if got2 is None or not _close_vec(got2, row2[r], 1e-12, 1e-15):
+                        bad_spec.append(f"after re-assignment: evaluate(x)[{key}] = {got2} but evalfn gives {row2[r]}")
         nl = nlatent(case["crit"], case["data"])
         return {"corr": not bad_corr, "spec": not bad_spec,
                 "nontrivial": ncand(case["crit"], case["data"]) >= 2 and nl >= 1,
